@@ -56,12 +56,23 @@ def gen(tier, rng, shard, nshards):
         elif shape_kind == "wide" and m > n:
             m, n = n, m
         node = S.gen_tree(rng, int(S.pick(rng, [0, 0, 1, 1, 2])), o, (m, n))
+        declared = m == n and rng.random() < 0.15
+        if declared:
+            # a (truthfully) declared self-adjoint / positive-definite operator: sub-operators must not inherit the declaration
+            # unless the same rows and columns are selected in the same order
+            dt = S.pick(rng, ["f8", "f8", "c16"])
+            name = S.pick(rng, ["SelfAdjoint", "PSD"])
+            node = {"k": "Annot", "name": name, "arg": {"k": S.pick(rng, ["Dense", "Dense", "Generic"]), "shape": [m, m], "dt": dt, "seed": S.seed(rng),
+                                                        "gen": "herm" if name == "SelfAdjoint" else "psd_int"}}
         forms = []
         for _ in range(6):
             f = S.pick(rng, ["ij", "ij", "i", "i,:", "i,s", ":,j", "s,j", "s,s", "s,s", "a,a", "a,s", "s,a", "l,l", "s"])
             ii, jj = int(rng.integers(-m, m)), int(rng.integers(-n, n))
             arr_r = rng.integers(-m, m, size=int(rng.integers(1, m + 2))) if rng.random() < 0.3 else rng.permutation(m)[:int(rng.integers(1, m + 1))]
             arr_c = rng.integers(-n, n, size=int(rng.integers(1, n + 2))) if rng.random() < 0.3 else rng.permutation(n)[:int(rng.integers(1, n + 1))]
+            if declared and f == "a,a" and rng.random() < 0.6:  # the same positions in a different order
+                arr_r = rng.permutation(m)[:int(rng.integers(1, m + 1))]
+                arr_c = rng.permutation(arr_r)
             if f == "ij":
                 ids = [enc(ii), enc(jj)]
             elif f == "i":
@@ -162,6 +173,26 @@ def run_case(ctx, case):
             ok, d = R.close(D, want, wantB, ref.dtype, eps=max(eps, R.eps_of(D.dtype) if D.dtype.kind in "fc" else 0))
             ctx.check("sub-operator-dense", ok, site=site, preds=preds, detail={"detail": d, "ids": ids})
         if want.shape[1] > 0 and want.shape[0] > 0:
+            # the sub-operator is an operator like any other: its transpose and its own entries / rows / columns are those of
+            # the sub-matrix (slice of a slice)
+            e0 = max(eps, 0.0)
+            Dt = ctx.call(lambda: got.T.to_dense())
+            if is_err(Dt):
+                ctx.check("sub-operator-transpose", False, site=site, preds=dict(preds, error=Dt.type), detail={"error": repr(Dt), "ids": ids})
+            else:
+                Dt = np.asarray(Dt)
+                ok, d = R.close(Dt, want.T, wantB.T, ref.dtype, eps=max(e0, R.eps_of(Dt.dtype) if Dt.dtype.kind in "fc" else 0))
+                ctx.check("sub-operator-transpose", ok, site=site, preds=preds, detail={"detail": d, "ids": ids})
+            i2, j2 = int(case["xseed"] % want.shape[0]), int((case["xseed"] // 7) % want.shape[1])
+            for nm, f2, w2, wB2 in (("entry", lambda: got[i2, j2], want[i2, j2], wantB[i2, j2]), ("row", lambda: got[i2], want[i2], wantB[i2]),
+                                    ("column", lambda: got[:, j2], want[:, j2], wantB[:, j2])):
+                g2 = ctx.call(f2)
+                if is_err(g2):
+                    ctx.check("sub-operator-reindexed", False, site=site, preds=dict(preds, error=g2.type, second=nm), detail={"error": repr(g2), "ids": ids})
+                    continue
+                g2 = np.asarray(g2)
+                ok, d = R.close(g2, np.asarray(w2), np.asarray(wB2), ref.dtype, eps=max(e0, R.eps_of(g2.dtype) if g2.dtype.kind in "fc" else 0))
+                ctx.check("sub-operator-reindexed", ok, site=site, preds=dict(preds, second=nm), detail={"detail": d, "ids": ids, "second": [nm, i2, j2]})
             x = P.operand(case["xseed"], (want.shape[1], 2), case["xdt"])
             y = ctx.call(lambda: got @ x)
             if is_err(y):
